@@ -24,6 +24,7 @@ type Options struct {
 	StopOnFirst    bool
 	KeepLogs       bool
 	NoMerge        bool
+	NoSymPtr       bool
 	Verbose        bool
 }
 
